@@ -204,6 +204,19 @@ def rule_coverage(run, F, cfg):
                             kinds.add(mm.group(1))
                     if not conds:
                         kinds.add("*")
+        # the same selection made by a local closure `|applies| if applies { &v.modifier_option } else { &None }` that is
+        # called with the rule-kind predicate: the kind is the predicate passed for the parameter the closure tests
+        for wf, op in sops.items():
+            e = nser.expr_operand(op)
+            mcl = re.match(r"^(.*\{closure#\d+\})\(closure\[", e)
+            c_ = F.fns.get(mcl.group(1)) if mcl else None
+            if c_ is None or c_.argc != 2:
+                continue
+            for kind, db, val, conds, _ in conditional_defs(c_, 0):
+                if "modifier_option" in val and conds == {c_.local_name(2): 1}:
+                    mk = re.search(r"\), \(filters::network::NetworkFilterMaskHelper::(is_\w+)\(", e)
+                    if mk:
+                        kinds.add(mk.group(1))
     # rule kinds that set modifier_option, from NetworkFilter::parse: the mask bit set in the same
     # arm as the assignment of modifier_option
     need = modifier_kinds(F)
@@ -516,6 +529,11 @@ def rule_legacy(run, F, cfg):
         if s["k"] == "assign" and s["pl"]["p"] and isinstance(s["pl"]["p"][-1], dict) \
                 and s["pl"]["p"][-1].get("adt") == "cosmetic_filter_cache::HostnameRuleDb":
             wrote[s["pl"]["p"][-1]["n"]] = de.expr_rvalue(s["rv"])
+    for b, i, s in de.statements():
+        # the same written as `HostnameRuleDb { procedural_action: .., ..restored }`
+        if s["k"] == "assign" and s["rv"]["k"] == "agg" and s["rv"].get("adt") == "cosmetic_filter_cache::HostnameRuleDb":
+            for n_, o_ in zip(s["rv"]["fields"], s["rv"]["ops"]):
+                wrote.setdefault(n_, de.expr_operand(o_))
     for fld in ("procedural_action", "procedural_action_exception"):
         e = wrote.get(fld, "")
         run.ob("C08.3.legacy-bijection", f"restore:{fld}", f"arg:v.{fld}" in e,
@@ -561,7 +579,7 @@ def rule_header(run, F, cfg):
            f"({[w for _, w in wr]}; result {ret[:80]})", site=s.loc(0), config=cfg)
     # v0 decoder skips exactly the header: payload = serialized[MAGIC.len() + 1..]
     d0 = F.fn("data_format::v0::DeserializeFormat::deserialize")
-    sl = [d0.vexpr_call(t) for b, t in d0.calls(r"index$") if "RangeFrom" in d0.vexpr_call(t)]
+    sl = [d0.expr_call(t) for b, t in d0.calls(r"index$") if "RangeFrom" in d0.vexpr_call(t)]
     ok_sl = len(sl) == 1 and bool(re.search(r"RangeFrom\{start: \((4|core::slice::len\(data_format::ADBLOCK_RUST_DAT_MAGIC\)|PtrMetadata\(.*MAGIC.*\)) AddWithOverflow 1\)\.0\}", sl[0]))
     run.ob("C08.4.header", "decoder-skips-header", ok_sl,
            f"the v0 decoder reads the payload from serialized[MAGIC.len() + 1..] ({sl})", site=d0.loc(0), config=cfg)
